@@ -41,6 +41,8 @@ class Contract:
         self.note = kw.pop("note", "")
         self.region = kw.pop("region", None)  # for lambdas / nested: ('lambda', n) etc.
         self.max_paths = kw.pop("max_paths", 4000)
+        self.budget_s = kw.pop("budget_s", None)
+        self.split = kw.pop("split", None)  # explore the paths below each decision prefix of this depth as separate parallel tasks  # per-function wall-clock budget override
         self.invariants = list(kw.pop("invariants", []))  # names of class invariants to assume on entry / prove on exit
         self.params: Optional[List[str]] = kw.pop("params", None)
         self.reveal = set(kw.pop("reveal", []))
